@@ -134,6 +134,7 @@ type Op struct {
 	// range: mutations performed when a given key is visited (first visit only), and an optional early break
 	On    map[int][]Op `json:"on,omitempty"`
 	Break int          `json:"break,omitempty"` // stop after this many visits (0 = run to the end)
+	Nest  []int        `json:"nest,omitempty"`  // range: at the first visit of these keys a second, complete range over the same map runs inside the loop
 }
 
 type History struct {
@@ -182,6 +183,10 @@ func genOp(n int, nilMap bool) *rapid.Generator[Op] {
 		if rapid.IntRange(0, 5).Draw(rt, "break") == 0 {
 			op.Break = rapid.IntRange(1, 3).Draw(rt, "breakAfter")
 		}
+		if rapid.IntRange(0, 3).Draw(rt, "nested") == 0 {
+			op.Nest = rapid.SliceOfNDistinct(rapid.IntRange(0, n-1), 1, 3, rapid.ID[int]).Draw(rt, "nestkeys")
+			sort.Ints(op.Nest)
+		}
 		return op
 	})
 }
@@ -219,6 +224,15 @@ func genHistory(rt *rapid.T) *History {
 		}
 	}
 	return h
+}
+
+func containsInt(s []int, x int) bool {
+	for _, y := range s {
+		if y == x {
+			return true
+		}
+	}
+	return false
 }
 
 func seq(n int) []int {
@@ -429,6 +443,30 @@ func runHost(h *History) (f *ev.Failure) {
 				if msg := rs.onVisit(visit{ki, vv.Int32()}); msg != "" {
 					return fail("host", h, i, msg)
 				}
+				if !done[ki] && containsInt(op.Nest, ki) {
+					// a second iterator over the same map, run to completion while the first is in flight
+					inner := gm.Range()
+					rs2 := newRangeState(m)
+					for n2 := 0; ; n2++ {
+						k2, v2, ok2 := inner()
+						if !ok2 {
+							break
+						}
+						if n2 > 200 {
+							return fail("host", h, i, "nested range does not terminate (200 visits)")
+						}
+						ki2 := k.keyIndex(k2)
+						if ki2 < 0 {
+							return fail("host", h, i, fmt.Sprintf("nested range yielded key %v which was never inserted", k2.String()))
+						}
+						if msg := rs2.onVisit(visit{ki2, v2.Int32()}); msg != "" {
+							return fail("host", h, i, "nested "+msg)
+						}
+					}
+					if msg := rs2.atEnd(true); msg != "" {
+						return fail("host", h, i, "nested "+msg)
+					}
+				}
 				if !done[ki] {
 					done[ki] = true
 					for _, mu := range op.On[ki] {
@@ -515,8 +553,14 @@ func script(h *History) string {
 			if op.Break > 0 {
 				fmt.Fprintf(&sb, "%sn%d := 0\n", ind, i)
 			}
+			for _, key := range op.Nest {
+				fmt.Fprintf(&sb, "%sw%d_%d := false\n", ind, i, key)
+			}
 			fmt.Fprintf(&sb, "%sfor k, v := range m {\n", ind)
 			fmt.Fprintf(&sb, "%s\tfmt.Println(\"V\", %d, k, v)\n", ind, i)
+			for _, key := range op.Nest {
+				fmt.Fprintf(&sb, "%s\tif k == %s && !w%d_%d {\n%s\t\tw%d_%d = true\n%s\t\tfor k2, v2 := range m {\n%s\t\t\tfmt.Println(\"W\", %d, k2, v2)\n%s\t\t}\n%s\t\tfmt.Println(\"X\", %d)\n%s\t}\n", ind, k.Keys[key], i, key, ind, i, key, ind, ind, i, ind, ind, i, ind)
+			}
 			for key := range k.Keys {
 				mus, ok := op.On[key]
 				if !ok {
@@ -628,6 +672,41 @@ func runScript(h *History) *ev.Failure {
 				visits++
 				if msg := rs.onVisit(visit{ki, val}); msg != "" {
 					return failS(i, msg)
+				}
+				if !done[ki] && containsInt(op.Nest, ki) {
+					rs2 := newRangeState(m)
+					wprefix := fmt.Sprintf("W %d ", i)
+					for strings.HasPrefix(peek(), wprefix) {
+						wl, _ := nextLine()
+						wrest := wl[len(wprefix):]
+						wsp := strings.LastIndex(wrest, " ")
+						if wsp < 0 {
+							return failS(i, fmt.Sprintf("malformed nested visit line %q", wl))
+						}
+						wk := -1
+						for j, p := range k.Prints {
+							if p == wrest[:wsp] {
+								wk = j
+							}
+						}
+						if wk < 0 && k.Name == "float64" && wrest[:wsp] == "-0" {
+							wk = 0
+						}
+						if wk < 0 {
+							return failS(i, fmt.Sprintf("nested range yielded key %q, which was never inserted", wrest[:wsp]))
+						}
+						var wv int32
+						fmt.Sscan(wrest[wsp+1:], &wv)
+						if msg := rs2.onVisit(visit{wk, wv}); msg != "" {
+							return failS(i, "nested "+msg)
+						}
+					}
+					if f := expect(i, fmt.Sprintf("X %d", i)); f != nil {
+						return f
+					}
+					if msg := rs2.atEnd(true); msg != "" {
+						return failS(i, "nested "+msg)
+					}
 				}
 				if !done[ki] {
 					done[ki] = true
